@@ -96,6 +96,11 @@ func sacrificeMain() {
 			after = runtime.NumGoroutine()
 		}
 		rep.Leak = after - before
+		if rep.Leak < 0 {
+			// fewer goroutines than before the call: a goroutine of the runtime or of an EARLIER input ended
+			// meanwhile - nothing this input left behind
+			rep.Leak = 0
+		}
 		if !lexerDone {
 			rep.Leak += 1000 // reported as 1000 goroutines "left": the model predicts 0
 		}
